@@ -429,7 +429,9 @@ func (h *H[T]) writerOp(d *uint64, parent, own, ro *signal.Buffer[T], op shareOp
 
 // execShare runs the program once under sim's strategy.
 func (h *H[T]) execShare(p *shareProgram, sim *simrt.Sim, label string) *shareResult {
-	big, shared := buildShared[T](p)
+	simrt.Begin(sim)
+	var big, shared *signal.Buffer[T]
+	sim.Setup(func() { big, shared = buildShared[T](p) }) // (every library call is made by a simulated task)
 	n := len(p.tasks)
 	res := &shareResult{digests: make([][]uint64, n), panicked: make([]int, n), rogue: make([]any, n)}
 	est := 0
@@ -554,6 +556,7 @@ func (h *H[T]) C19(rc *runCtx) *Violation {
 		rc.extraTrace = append([]string{"--- reference: the same program, task after task ---"}, seqSim.RenderTrace()...)
 		rc.extraTrace = append(rc.extraTrace, "--- the same program under the drawn schedule ---")
 	}
+	sim.Adopt(seqSim) // goroutines the library started during the reference execution live on
 	conc := h.execShare(p, sim, "conc")
 	if sim.RaceAborted {
 		return nil // reported as a data race by the worker
